@@ -102,6 +102,10 @@ fn main() {
                     },
                 }
             },
+            6 => {
+                // Capabilities of this build.
+                out.extend_from_slice(if cfg!(feature = "run") { b"run,perr" as &[u8] } else if cfg!(feature = "perr") { b"perr" } else { b"" });
+            },
             3 => {
                 fs::write("case.sd", &payload).expect("write case");
                 let (code, stderr) = api::run_like_main("case.sd");
